@@ -1074,3 +1074,84 @@ func famTransferStuck(t *testing.T, seed int64, steps int) *Cluster {
 	c.converge(500 * time.Millisecond)
 	return c
 }
+
+// famFastPathRace: heartbeats are handled by the transport's own goroutine (SetHeartbeatHandler fast path), i.e.
+// concurrently with a candidate's run loop. B campaigns in term T and holds C's granted vote in flight; C wins term
+// T+1 with A's vote; C's heartbeat turns B into a follower of term T+1 from outside B's loop; then the old vote
+// arrives. Nobody may lead a term it did not win (C01), and a follower names only a real leader (C18).
+func famFastPathRace(t *testing.T, seed int64, steps int) *Cluster {
+	opt := DefaultOptions(seed)
+	opt.Family = "fastpathrace"
+	opt.HBFast = true
+	opt.PreVoteOff = seed%2 == 1
+	c := NewCluster(t, opt)
+	c.Bootstrap()
+	c.StartAll()
+	A := c.WaitLeader(2 * time.Second)
+	if A == "" {
+		return c
+	}
+	var others []string
+	for _, id := range opt.Servers {
+		if id != A {
+			others = append(others, id)
+		}
+	}
+	B, C := others[int(seed/2)%2], others[1-int(seed/2)%2]
+	c.Apply(A, 0)
+	c.Settle("client")
+	c.Drive(100*time.Millisecond, nil, nil)
+	if c.Leader() != A {
+		c.converge(500 * time.Millisecond)
+		return c
+	}
+	T0 := c.byID[A].Raft.CurrentTerm()
+	// A is cut off until it gives up leadership; B campaigns first (C's own campaign messages are held back)
+	c.isolate(A)
+	c.dropPendingFrom(A)
+	heldVote := func(r *Rpc) bool { // C's answer to B's RequestVote stays in flight
+		return r.Src == B && r.Dst == C && r.Kind == "rv" && r.Phase != phReq
+	}
+	ok := c.Drive(2*time.Second, func(r *Rpc) bool {
+		if r.Src == C && (r.Kind == "pv" || r.Kind == "rv") {
+			return false
+		}
+		return !heldVote(r)
+	}, func() bool {
+		for _, r := range c.Net.Pending() {
+			if heldVote(r) {
+				return true
+			}
+		}
+		return false
+	})
+	T := c.byID[B].Raft.CurrentTerm()
+	if !ok || T <= T0 || c.byID[A].Raft.State() == raft.Leader {
+		c.healAll()
+		c.converge(500 * time.Millisecond)
+		return c
+	}
+	// A is back; C campaigns and wins the next term with A's vote; nothing of it reaches B except heartbeats,
+	// and B's own messages go nowhere
+	c.healAll()
+	c.dropPendingFrom(A)
+	okC := c.Drive(3*time.Second, func(r *Rpc) bool {
+		if heldVote(r) || r.Src == B {
+			return false
+		}
+		if r.Src == A && (r.Kind == "pv" || r.Kind == "rv") {
+			return false
+		}
+		if r.Dst == B && r.Kind != "hb" {
+			return false
+		}
+		return true
+	}, func() bool { return c.byID[C].Raft.State() == raft.Leader && c.byID[B].Raft.CurrentTerm() >= c.byID[C].Raft.CurrentTerm() })
+	// now the old vote arrives at B
+	if okC {
+		c.Drive(60*time.Millisecond, func(r *Rpc) bool { return heldVote(r) }, nil)
+	}
+	c.Drive(200*time.Millisecond, nil, nil)
+	c.converge(500 * time.Millisecond)
+	return c
+}
